@@ -653,9 +653,21 @@ impl CommandHub {
             .job
             .client_token()
             .and_then(|token| self.clients.get_mut(&token));
+        // An id is answered once: retire it as soon as a terminal (Ok/Failure)
+        // status was counted, so a duplicate answer from the same worker is
+        // dropped as "unknown" instead of being counted a second time (which
+        // let `has_finished` fire while another worker had not answered yet).
+        let terminal = matches!(
+            ResponseStatus::try_from(response.status),
+            Ok(ResponseStatus::Ok | ResponseStatus::Failure)
+        );
+        let response_id = response.id.clone();
         task.job
             .get_gatherer()
             .on_message(&mut self.server, client, worker_id, response);
+        if terminal {
+            self.in_flight.remove(&response_id);
+        }
     }
 
     fn handle_finishing_task(&mut self, task_id: TaskId, task: TaskContainer, timed_out: bool) {
